@@ -23,7 +23,12 @@ LEVEL_TEXT = ("Theorems in Coq, for every cluster, label assignment, policy list
               "guarantees (c19_rounds_with_barrier; without the barrier refuted, c19_rounds_without_barrier_refuted); the harness "
               "runs real rebalance rounds against a harness-owned action worker (FIFO, one action at a time through the real "
               "swapNodeInMetadata, one slow swap with the others queued behind it) and judges the stored status after every "
-              "application (kind pipe; every application is also a swapnode case for the model).")
+              "application (kind pipe; every application is also a swapnode case for the model). swapNode as a whole (refused / election "
+              "failed / swapped) leaves the controller's memory equal to the status (c19_swap_memory_equals_status; an in-memory "
+              "roll-back after a failed election is refuted, c19_swap_rollback_refuted); the harness applies balancer swaps through "
+              "real shard controllers with a scripted rpc provider whose swap election misses its quorum, then lets further members "
+              "leave the cluster, and judges the stored status and its agreement with what the controller stores next (kind elect; "
+              "every SwapNode is a swapctl case for the model).")
 LEVEL_NOTE = ("Trusted: Coq kernel, extraction (ExtrOcamlBasic), the Go harness and its canonicalisation. Modelled, not verified: "
               "the float load-ratio arithmetic of DefaultShardsRank / balanceHighestNode (the node ranking and the list of (shard, from) "
               "requests of a round are inputs of the model, observed from the real run); gods linkedhashset as an insertion-ordered set "
@@ -45,6 +50,8 @@ RULE = ("clusters of 3-9 servers (ids 1..12, random insertion order), 0-3 labels
         "swap: existing placements incl. servers removed from the cluster; round: 2-7 live + 0-3 removed servers, 1-10 shards; "
         "pipe: skewed-load clusters (old servers loaded, new empty servers sharing a zone, strict zone namespace + rf-1 namespace) and "
         "round-leg clusters with removed servers, 2-3 rounds, slow swap at position 0 (75%) or 1-2, hold 30 ms; "
+        "elect: 5-7 servers in 3-5 zones, 1-3 strict-zone rf-3 shards + rf-1 shards, a member leaves, first swap election fails (85%), "
+        "optional probe election, another member leaves, two more rounds, probe; "
         "place: real coordinator on 2-6 servers, 0-2 labels (one value per server / about as many values as servers / 1-3 values), "
         "namespaces with rf <, =, > cluster size and Strict/Relaxed/two-label/two-rule policies, steps I/E/C/R with servers added or "
         "removed and labels changed; "
